@@ -1489,6 +1489,45 @@ impl<'a> Cx<'a> {
         self.finish(out, Exp::new(vec![ev_read(reg, p), ev_write(reg, v1), ev_read(reg, v1), ev_write(reg, v2), ev_read(reg, v2)], Some(vec![p & rmask, v1, v2])))
     }
 
+    /// MXCSR is an unprivileged register: the wrappers run natively on the real one.  The harness
+    /// loads seeded prior contents and reads the result with its own `ldmxcsr`/`stmxcsr`, and puts
+    /// the default back before any of its own floating-point code can run.
+    fn mxcsr_op(&mut self) -> R {
+        use x86_64::registers::mxcsr::{self, MxCsr};
+        let prior = (self.u("p") & 0xffff) as u32;
+        let v = (self.u("v") & 0xffff) as u32;
+        let (and, xor) = ((self.s["and"].as_u64().unwrap_or(!0) & 0xffff) as u32, (self.u("xor") & 0xffff) as u32);
+        let kind = self.u("kind") % 3;
+        let label = self.op.clone();
+        let out = call(&label, false, || {
+            let mut after: u32 = 0;
+            let mut ret: u32 = 0;
+            let mut seen: u32 = 0;
+            unsafe {
+                core::arch::asm!("ldmxcsr [{}]", in(reg) &prior, options(nostack, readonly));
+                match kind {
+                    0 => ret = mxcsr::read().bits(),
+                    1 => mxcsr::write(MxCsr::from_bits_truncate(v)),
+                    _ => mxcsr::update(|f| {
+                        seen = f.bits();
+                        *f = MxCsr::from_bits_truncate((f.bits() & and) ^ xor);
+                    }),
+                }
+                core::arch::asm!("stmxcsr [{}]", in(reg) &mut after, options(nostack));
+                let dflt: u32 = 0x1f80;
+                core::arch::asm!("ldmxcsr [{}]", in(reg) &dflt, options(nostack, readonly));
+            }
+            vec![ret as u64, seen as u64, after as u64]
+        });
+        let want = match kind {
+            0 => vec![prior as u64, 0, prior as u64],
+            1 => vec![0, 0, v as u64],
+            _ => vec![0, prior as u64, ((prior & and) ^ xor) as u64],
+        };
+        self.class |= kind << 4;
+        self.finish(out, Exp::new(vec![], Some(want)))
+    }
+
     fn step(&mut self, fams: &[Fam]) -> R {
         let op = self.op.clone();
         if let Some((name, kind)) = op.split_once('_') {
@@ -1506,6 +1545,7 @@ impl<'a> Cx<'a> {
             "seg_get" | "seg_set" | "seg_read_base" | "seg_write_base" | "gs_swap" | "load_tss" => self.seg_op(),
             "rflags_read" | "rflags_read_raw" | "rflags_write" | "rflags_write_raw" => self.rflags_op(),
             "rwr" | "gs_swap_reads" => self.compound_op(),
+            "mxcsr" => self.mxcsr_op(),
             _ => Ok(()),
         }
     }
@@ -1575,7 +1615,7 @@ const FAST_OPS: &[(&str, u32)] = &[
     ("pat_read", 2), ("pat_write", 3),
     ("apic_read", 2), ("apic_read_raw", 2), ("apic_write", 4), ("apic_write_raw", 2),
     ("gs_swap", 2), ("load_tss", 1),
-    ("rwr", 8), ("gs_swap_reads", 2),
+    ("rwr", 8), ("gs_swap_reads", 2), ("mxcsr", 3),
 ];
 
 /// wrappers whose instructions do not trap in ring 3: run under single-stepping
@@ -1810,6 +1850,14 @@ fn mk(rng: &mut Rng, op: &str, like: Option<&Value>) -> Value {
             json!({"op": op, "t": t, "idx": rng.below(9), "n": rng.below(4), "v1": v1, "v2": v2})
         }
         "gs_swap_reads" => json!({"op": op}),
+        "mxcsr" => {
+            let val = |rng: &mut Rng| match rng.below(4) {
+                0 => 0x1f80,
+                1 => 0x1f80 ^ (1u64 << rng.below(16)),
+                _ => rng.below(1 << 16),
+            };
+            json!({"op": op, "kind": rng.below(3), "p": val(rng), "v": val(rng), "and": if rng.chance(50) { 0xffff } else { rng.below(1 << 16) }, "xor": if rng.chance(50) { 0 } else { rng.below(1 << 16) }})
+        }
         "cr3_write" => json!({"op": op, "frame": frame(rng), "f": sub(rng, CR3_FLAGS)}),
         "cr3_write_raw" => json!({"op": op, "frame": frame(rng), "v": if rng.chance(80) { rng.below(4096) } else { rng.below(65536) }}),
         "cr3_write_pcid" | "cr3_write_pcid_nf" => {
